@@ -42,7 +42,7 @@ Admissible(rec) == \A key \in ItemKeys : \E i \in 1..Len(past) : ValOf(rec, key)
 InitC == Init /\ dur = Len(file) /\ past = <<Obs(mem)>> /\ crashed = FALSE
 
 \* an ordinary engine call; snapshots/compactions/compress make everything before them durable
-Durabilising == {"SaveSnapshot", "RewriteAOF", "VCompress", "Reopen", "VDeleteCut"}
+Durabilising == {"SaveSnapshot", "RewriteAOF", "VCompress", "Reopen", "VDeleteCut", "VImportCommit"}
 Step ==
   /\ ~crashed
   /\ Next
@@ -66,7 +66,7 @@ CrashAt(k) ==
   /\ file' = SubSeq(file, 1, k)
   /\ mem' = Recover(snap, file')
   /\ ops' = Append(ops, [op |-> "Crash", point |-> "between", keep |-> k, of |-> Len(file), res |-> "ok"])
-  /\ UNCHANGED <<snap, clock, dev, delat, dur, past>>
+  /\ UNCHANGED <<snap, clock, dev, delat, dirty, dur, past>>
 
 \* crash inside SaveSnapshot after the image was renamed into place but before the log was truncated:
 \* the new image AND the complete old log are on disk
@@ -80,7 +80,7 @@ CrashSnapRenamed ==
   \* idempotent for edges whose weight/properties changed or that were re-linked (GLINK/GUNLINK are
   \* applied again to versions the image already holds)
   /\ dev' = IF mem.out # {} THEN dev \cup {"replay_over_newer_snapshot"} ELSE dev
-  /\ UNCHANGED <<file, clock, delat, dur, past>>
+  /\ UNCHANGED <<file, clock, delat, dirty, dur, past>>
 
 \* crash inside RewriteAOF after the compacted log replaced the old one (snapshot untouched)
 CrashRwReplaced ==
@@ -89,7 +89,7 @@ CrashRwReplaced ==
   /\ file' = Emit(mem)
   /\ mem' = Recover(snap, file')
   /\ ops' = Append(ops, [op |-> "Crash", point |-> "rw.replaced", res |-> "ok"])
-  /\ UNCHANGED <<snap, clock, dev, delat, dur, past>>
+  /\ UNCHANGED <<snap, clock, dev, delat, dirty, dur, past>>
 
 \* crash inside SaveSnapshot / RewriteAOF before the rename / replace: temporaries are left behind,
 \* the durable files are untouched (everything journaled so far was flushed by Begin)
@@ -98,7 +98,7 @@ CrashAdminEarly(point) ==
   /\ crashed' = TRUE
   /\ mem' = Recover(snap, file)
   /\ ops' = Append(ops, [op |-> "Crash", point |-> point, res |-> "ok"])
-  /\ UNCHANGED <<snap, file, clock, dev, delat, dur, past>>
+  /\ UNCHANGED <<snap, file, clock, dev, delat, dirty, dur, past>>
 
 \* after a crash: the repaired directory is a fixed point
 ReopenAfterCrash ==
@@ -106,7 +106,7 @@ ReopenAfterCrash ==
   /\ Len(ops) < MaxOps + 3
   /\ mem' = Recover(snap, file)
   /\ ops' = Append(ops, [op |-> "Reopen", res |-> "ok"])
-  /\ UNCHANGED <<snap, file, clock, dev, delat, dur, past, crashed>>
+  /\ UNCHANGED <<snap, file, clock, dev, delat, dirty, dur, past, crashed>>
 
 NextC ==
   \/ Step \/ Flush
@@ -121,7 +121,7 @@ Inv_CrashAdmissible == (crashed /\ dev = {}) => Admissible(Obs(mem))
 \* C02: opening the repaired directory again changes nothing
 Inv_FixedPoint == crashed => Obs(Recover(snap, file)) = Obs(mem)
 
-ViewC == <<mem, snap, file, clock, dev, delat, dur, past, crashed>>
+ViewC == <<mem, snap, file, clock, dev, delat, dirty, dur, past, crashed>>
 BoundC == Bound /\ Len(past) <= MaxOps + 2
 
 \* corpus: for every reachable pre-crash state, what each crash point must recover to.
